@@ -1,7 +1,8 @@
 /-
 C10 specification: the bus as an abstract address map.  Only what the property talks about:
-RAM cells, the four input registers, the two output registers, the interrupt-enable mask and the
-board's output / input ports.  Status registers (0xF1-0xF3, 0xF9-0xFB reads) are not determined here.
+RAM cells, the four input registers, the two output registers, the interrupt-enable mask, the
+interrupt status read at 0xF9 (raised by a key press only, never changed by a write) and the board's
+output / input ports.  The other status registers (0xF1-0xF3, 0xFA-0xFB reads) are not determined here.
 -/
 import Emu2a.Model.Bus
 namespace Emu2a
@@ -15,6 +16,7 @@ structure BusSpec where
   outFE : Byte
   outFF : Byte
   mask : Byte
+  status : Byte
   do1 : Byte
   do2 : Byte
   di1 : Byte
@@ -23,7 +25,7 @@ structure BusSpec where
 namespace BusSpec
 
 def new : BusSpec :=
-  ⟨Vector.replicate 240 0#8, 0, 0, 0, 0, 0, 0, 0, 0, 0, 0⟩
+  ⟨Vector.replicate 240 0#8, 0, 0, 0, 0, 0, 0, 0, 0, 0, 0, 0⟩
 
 /-- A write reaches exactly one cell / register of the map, or nothing the map records. -/
 def write (s : BusSpec) (a v : Byte) : BusSpec :=
@@ -39,6 +41,7 @@ def write (s : BusSpec) (a v : Byte) : BusSpec :=
 def read (s : BusSpec) (a : Byte) : Option Byte :=
   if h : a.toNat < 240 then some (s.ram[a.toNat]'h)
   else if a = 0xF0#8 then some s.di1
+  else if a = 0xF9#8 then some s.status
   else if a = 0xFC#8 then some s.in0
   else if a = 0xFD#8 then some s.in1
   else if a = 0xFE#8 then some s.in2
@@ -51,6 +54,12 @@ def setInput (s : BusSpec) (i : Nat) (v : Byte) : BusSpec :=
 
 def setDi1 (s : BusSpec) (v : Byte) : BusSpec := { s with di1 := v }
 
+/-- The interrupt key is pressed: the status shows the request (bit 0) and, when the key-edge
+enable bit of the mask (bit 0) is set, that it is pending (bit 4).  Nothing else raises the status;
+no write lowers it (the CPU's RETI does, which is outside the bus operations). -/
+def keyIrq (s : BusSpec) : BusSpec :=
+  { s with status := s.status ||| 0x01#8 ||| (if s.mask &&& 0x01#8 = 0#8 then 0#8 else 0x10#8) }
+
 end BusSpec
 
 /-- Operations of the bus histories C10 quantifies over. -/
@@ -59,6 +68,7 @@ inductive BusOp
   | read (a : Byte)
   | setInput (i : Fin 4) (v : Byte)
   | setDi1 (v : Byte)
+  | keyIrq
   deriving DecidableEq, Repr
 
 def BusSpec.apply (s : BusSpec) : BusOp → BusSpec
@@ -66,19 +76,26 @@ def BusSpec.apply (s : BusSpec) : BusOp → BusSpec
   | .read _ => s
   | .setInput i v => s.setInput i.val v
   | .setDi1 v => s.setDi1 v
+  | .keyIrq => s.keyIrq
 
 def Bus.setInput (b : Bus) (i : Nat) (v : Byte) : Bus :=
   match i with
   | 0 => { b with inFC := v } | 1 => { b with inFD := v } | 2 => { b with inFE := v } | _ => { b with inFF := v }
+
+/-- The bus part of `trigger_key_edge_interrupt` (see `C10.keyIrq_machine`). -/
+def Bus.keyIrq (b : Bus) : Bus :=
+  let misr := if b.keyEdgeEnabled then b.misr ||| BitVec.ofNat 8 Gen.C.misrKeyPending else b.misr
+  { b with misr := misr ||| BitVec.ofNat 8 Gen.C.misrKeyActive }
 
 def Bus.apply (b : Bus) : BusOp → Bus
   | .write a v => b.write a v
   | .read _ => b          -- `Bus::read` takes `&self`: by type it cannot change the bus
   | .setInput i v => b.setInput i.val v
   | .setDi1 v => { b with board := b.board.setDi1 v }
+  | .keyIrq => b.keyIrq
 
 /-- Abstraction map from the concrete bus to the address map. -/
 def Bus.abs (b : Bus) : BusSpec :=
-  ⟨b.ram, b.inFC, b.inFD, b.inFE, b.inFF, b.outFE, b.outFF, b.micr, b.board.do1, b.board.do2, b.board.di1⟩
+  ⟨b.ram, b.inFC, b.inFD, b.inFE, b.inFF, b.outFE, b.outFF, b.micr, b.misr, b.board.do1, b.board.do2, b.board.di1⟩
 
 end Emu2a
